@@ -279,8 +279,53 @@ def t_phases(ctx, it):
   ctx.oblige("update_fn.post.update-tree-mirrors-params", sorted(upd.keys()) == ["a", "b"])
 
 
+def mk_exponent(rank, ptype, override):
+  """P3: the exponent handed to the root routine is 2 x #preconditioned axes (or the non-zero override)."""
+
+  def t(ctx, it):
+    m = it.load_module(D.DS)
+    PT = m.PreconditionerType
+    dims = tuple(spec.fresh_int(f"d{a}", lo=1) for a in range(rank))
+    for d in dims:
+      ctx.assume(d <= 4096)  # not skipped (skip_preconditioning_dim_size_gt default)
+    pre = m.Preconditioner(T.opaque("p", dims), 0, 4096, False, PT[ptype], 0)
+    should = pre.should_precondition_dims()
+    n_axes = rank if (ptype == "ALL" or rank <= 1) else (rank - 1 if ptype == "INPUT" else 1)
+    ctx.oblige("Preconditioner.should_precondition_dims.post.#preconditioned-axes", sum(1 for b in should if b) == n_axes,
+               detail=f"rank={rank} type={ptype}")
+    ctx.oblige("Preconditioner.exponent_for_preconditioner.post = 2 x #preconditioned axes (inverse 2k-th roots)",
+               pre.exponent_for_preconditioner() == 2 * n_axes, detail=f"rank={rank} type={ptype}")
+    # plumbing in _compute_preconditioners: the override replaces it iff non-zero
+    ov = spec.fresh_int("exponent_override", lo=1) if override else 0
+    opt = m.distributed_shampoo(0.1, block_size=0, best_effort_shape_interpretation=False, precondtioner_type=PT[ptype],
+                                exponent_override=ov)
+    env = opt.update.env.vars
+    seen = {}
+
+    def spy(states, step, statistics, num_statistics_per_state, original_shapes, exponents, max_size, prev):
+      seen["exponents"] = list(exponents)
+      seen["n"] = len(statistics)
+      return states
+
+    env["_pmap_compute_preconditioners"] = spy
+    param = T.opaque("param", dims)
+    st = opt.init({"w": param})
+    stats_flat = [st.stats["w"]]
+    env["_compute_preconditioners"](stats_flat, [param], T.asarray(spec.fresh_int("step", lo=0)))
+    want = ov if override else 2 * n_axes
+    ctx.oblige("_compute_preconditioners.post.one exponent per statistic = (override if non-zero else 2 x #preconditioned axes)",
+               len(seen["exponents"]) == seen["n"] and seen["n"] == n_axes and all(sym.prove(e == want) for e in seen["exponents"]),
+               detail=f"rank={rank} type={ptype} override={override} seen={seen}")
+
+  return t
+
+
 def tasks(tier):
   ts = []
+  for r in (1, 2, 3, 4):
+    for pt in ("ALL", "INPUT", "OUTPUT"):
+      for ov in (False, True):
+        ts.append(Task(f"exponent[rank={r},{pt},override={ov}]", mk_exponent(r, pt, ov)))
   cfgs = list(D.all_cfgs())
   for cfg in cfgs:
     ts.append(Task(f"_transform_grad[{cfg.name()}]", mk_transform(cfg)))
